@@ -7,6 +7,7 @@ import (
 	"context"
 	"sort"
 	"sync"
+	"verif/shim/core"
 
 	ds "github.com/ipfs/go-datastore"
 	dsq "github.com/ipfs/go-datastore/query"
@@ -99,6 +100,7 @@ func (d *RecDS) ImageAt(n int) map[string][]byte {
 }
 
 func (d *RecDS) Get(ctx context.Context, key ds.Key) ([]byte, error) {
+	core.Point("stmt", "ds:get") // scheduling point for harnesses that schedule at datastore granularity (no-op otherwise)
 	d.mu.Lock()
 	defer d.mu.Unlock()
 	v, ok := d.m[key.String()]
@@ -108,6 +110,7 @@ func (d *RecDS) Get(ctx context.Context, key ds.Key) ([]byte, error) {
 	return append([]byte(nil), v...), nil
 }
 func (d *RecDS) Has(ctx context.Context, key ds.Key) (bool, error) {
+	core.Point("stmt", "ds:has") // scheduling point for harnesses that schedule at datastore granularity (no-op otherwise)
 	d.mu.Lock()
 	defer d.mu.Unlock()
 	_, ok := d.m[key.String()]
@@ -139,10 +142,12 @@ func (d *RecDS) Query(ctx context.Context, q dsq.Query) (dsq.Results, error) {
 	return dsq.NaiveQueryApply(q, r), nil
 }
 func (d *RecDS) Put(ctx context.Context, key ds.Key, value []byte) error {
+	core.Point("stmt", "ds:put") // scheduling point for harnesses that schedule at datastore granularity (no-op otherwise)
 	d.apply(Write{Puts: map[string][]byte{key.String(): append([]byte(nil), value...)}})
 	return nil
 }
 func (d *RecDS) Delete(ctx context.Context, key ds.Key) error {
+	core.Point("stmt", "ds:delete") // scheduling point for harnesses that schedule at datastore granularity (no-op otherwise)
 	d.apply(Write{Deletes: []string{key.String()}})
 	return nil
 }
